@@ -109,18 +109,17 @@ pub fn steps_strategy(max_rounds: usize, small_only: bool) -> BoxedStrategy<Vec<
 
 pub struct Batch {
     pub entries: Vec<Entry>,
-    /// builder offset after the append
+    /// builder offset after the append (the builder's own account; evidence only)
     pub end: u64,
+    /// payload bytes of the batch
+    pub payload: u64,
 }
 
 pub struct Built {
     pub batches: Vec<Batch>,
     pub setsum: Setsum,
     pub notes: Vec<String>,
-    /// an append refused by the roll-over size had already padded the block: the layout rules are
-    /// not applied to what follows
-    pub relaxed_layout: bool,
-    /// batches that were refused by the roll-over size
+    /// batches whose append was refused (roll-over size, or a size above the documented maximum)
     pub refused: Vec<Vec<Entry>>,
 }
 
@@ -148,7 +147,6 @@ struct B<'a, W: sst::log::Write> {
     o: &'a mut Outcome,
     notes: Vec<String>,
     rollover: Option<u64>,
-    relaxed_layout: bool,
     refused: Vec<Vec<Entry>>,
 }
 
@@ -174,6 +172,9 @@ where
         let wb = match make_batch(&entries) {
             Ok(wb) => wb,
             Err(e) => {
+                if self.above_documented_max(shapes_size(shapes), "batch") {
+                    return true;
+                }
                 self.o.fail("batch-entry-refused", format!("a write batch of {} entries (payload {} bytes) refused an entry within the limits: {e:?}", entries.len(), shapes_size(shapes)));
                 return false;
             }
@@ -184,6 +185,17 @@ where
             }
         }
         self.append_batch(&wb, entries)
+    }
+
+    /// Acceptance is demanded up to the smallest documented maximum only (sst::MAX_BATCH_LEN,
+    /// log::MAX_BATCH_SIZE); a refusal above it is recorded and the step is skipped.
+    fn above_documented_max(&mut self, p: usize, what: &str) -> bool {
+        if p as u64 > MUST_ACCEPT {
+            self.notes.push(format!("refused-above-documented-maximum:{what}"));
+            true
+        } else {
+            false
+        }
     }
 
     fn append_batch(&mut self, wb: &WriteBatch, entries: Vec<Entry>) -> bool {
@@ -217,21 +229,19 @@ where
         let end = self.off();
         match r {
             Err(e) => {
-                let beyond = self.rollover.map(|r| before + pad + frame > r).unwrap_or(false);
-                if !(beyond && sst::is_table_full(&e)) {
+                // padding and a second header may come on top of the frame (at most 2 * HEADER_MAX_SIZE + 1)
+                let beyond = self.rollover.map(|r| before + frame + 2 * HMAX + 1 > r).unwrap_or(false);
+                if beyond {
+                    self.notes.push(if end != before { "rollover:refused-after-padding".into() } else { "rollover:refused".into() });
+                } else if !self.above_documented_max(p, "append") {
                     self.o.fail("append-refused", format!("append of batch #{} (payload {p} bytes) at offset {before} failed: {e:?}", self.batches.len()));
                     return false;
                 }
-                if end != before {
-                    // the block had been padded before the size was checked again
-                    if end != before + pad {
-                        self.o.fail("refused-append-moved-offset", format!("an append refused by the roll-over size moved the offset from {before} to {end} (the padding up to the boundary would be {pad} bytes)"));
-                        return false;
-                    }
-                    self.relaxed_layout = true;
-                    self.notes.push("rollover:refused-after-padding".into());
-                } else {
-                    self.notes.push("rollover:refused".into());
+                if !sst::is_table_full(&e) {
+                    self.notes.push("refused-append:error-is-not-table-full".into());
+                }
+                if end != before && end != before + pad {
+                    self.notes.push("refused-append:moved-offset-by-other-than-the-padding".into());
                 }
                 self.refused.push(entries);
                 true
@@ -244,10 +254,9 @@ where
                     }
                 }
                 if end < before + p as u64 {
-                    self.o.fail("append-offset", format!("append of {p} payload bytes moved the builder's offset from {before} to {end} only"));
-                    return false;
+                    self.notes.push("layout:append-moved-builder-offset-by-less-than-the-payload".into());
                 }
-                self.batches.push(Batch { entries, end });
+                self.batches.push(Batch { entries, end, payload: p as u64 });
                 true
             }
         }
@@ -366,13 +375,16 @@ where
                 let wb = match make_batch_via(&entries, *via) {
                     Ok(wb) => wb,
                     Err(e) => {
+                        if self.above_documented_max(shapes_size(shapes), "batch") {
+                            return true;
+                        }
                         self.o.fail("batch-entry-refused", format!("a write batch of {} entries built via {via:?} refused an entry within the limits: {e:?}", entries.len()));
                         return false;
                     }
                 };
                 if wb.approximate_size() != shapes_size(shapes) {
-                    self.o.fail("batch-size-differs", format!("a batch built via {via:?} holds {} bytes, the same entries through put / del hold {}", wb.approximate_size(), shapes_size(shapes)));
-                    return false;
+                    // (what the batch holds is judged when the log is read back)
+                    self.notes.push("batch-via:size-differs-from-put/del".into());
                 }
                 self.notes.push(format!("batch-via:{via:?}"));
                 self.append_batch(&wb, entries)
@@ -408,7 +420,10 @@ where
                 let mut wb = match make_batch(&entries) {
                     Ok(wb) => wb,
                     Err(e) => {
-                        self.o.fail("batch-entry-refused", format!("a write batch refused an entry that keeps the payload at {p} <= 1 MiB: {e:?}"));
+                        if self.above_documented_max(p, "batch") {
+                            return true;
+                        }
+                        self.o.fail("batch-entry-refused", format!("a write batch refused an entry that keeps the payload at {p} bytes: {e:?}"));
                         return false;
                     }
                 };
@@ -428,8 +443,7 @@ where
                         }
                         Err(e) => {
                             if !sst::is_table_full(&e) {
-                                self.o.fail("merge-over-limit-wrong-error", format!("a merge that overflows the batch was refused with {e:?} instead of table-full"));
-                                return false;
+                                self.notes.push("merge:over-limit-refused-with-another-error-than-table-full".into());
                             }
                             if wb.approximate_size() != sz {
                                 self.o.fail("merge-over-limit-changed-batch", format!("a refused merge changed the batch's size from {sz} to {}", wb.approximate_size()));
@@ -456,35 +470,34 @@ where
                     if let Some(sh) = plan_exact(room_left, &[], *ts, 0).filter(|s| shapes_size(s) == room_left) {
                         let es: Vec<Entry> = sh.iter().enumerate().map(|(i, s)| make_entry(self.tag(9000 + i), s)).collect();
                         let other = make_batch(&es).expect("small batch");
-                        if let Err(e) = wb.merge(&other) {
-                            self.o.fail("merge-within-limit-refused", format!("merging {} bytes into a batch of {sz} bytes (exactly 1 MiB together) was refused: {e:?}", other.approximate_size()));
-                            return false;
+                        // (1 MiB is above the documented maxima: a refusal is recorded, not judged; a
+                        // refused merge must leave the batch as it was, which the read-back shows)
+                        match wb.merge(&other) {
+                            Ok(()) => {
+                                entries.extend(es);
+                                self.notes.push("merge:to-exactly-1MiB".into());
+                            }
+                            Err(_) => self.notes.push("merge:to-exactly-1MiB-refused(above-documented-maximum)".into()),
                         }
-                        entries.extend(es);
-                        self.notes.push("merge:to-exactly-1MiB".into());
                     }
                 }
                 self.append_batch(&wb, entries)
             }
             Step::Empty => {
+                // An empty batch adds nothing a reader could see, whether it is refused (as today,
+                // with the empty-batch error) or taken as a no-op; which of the two, and the error
+                // code, are recorded.  The read-back decides.
                 let before = self.off();
                 match self.log.append(&WriteBatch::default()) {
-                    Ok(()) => {
-                        self.o.fail("empty-batch-accepted", format!("appending an empty batch at offset {before} succeeded"));
-                        false
-                    }
+                    Ok(()) => self.notes.push("empty-batch:accepted".into()),
                     Err(e) => {
-                        if !sst::is_empty_batch(&e) {
-                            self.o.fail("empty-batch-wrong-error", format!("appending an empty batch failed with {e:?} instead of the empty-batch error"));
-                            return false;
-                        }
-                        if self.off() != before {
-                            self.o.fail("empty-batch-moved-offset", format!("a refused empty batch moved the offset from {before} to {}", self.off()));
-                            return false;
-                        }
-                        true
+                        self.notes.push(if sst::is_empty_batch(&e) { "empty-batch:refused-with-empty-batch-error".into() } else { "empty-batch:refused-with-another-error".into() });
                     }
                 }
+                if self.off() != before {
+                    self.notes.push("empty-batch:moved-builder-offset".into());
+                }
+                true
             }
             Step::Overfull { room, ts } => {
                 let p = BLOCK as usize - *room as usize;
@@ -493,7 +506,10 @@ where
                 let mut wb = match make_batch(&entries) {
                     Ok(wb) => wb,
                     Err(e) => {
-                        self.o.fail("batch-entry-refused", format!("a write batch refused an entry that keeps the payload at {p} <= 1 MiB: {e:?}"));
+                        if self.above_documented_max(p, "batch") {
+                            return true;
+                        }
+                        self.o.fail("batch-entry-refused", format!("a write batch refused an entry that keeps the payload at {p} bytes: {e:?}"));
                         return false;
                     }
                 };
@@ -513,8 +529,7 @@ where
                     }
                     Err(e) => {
                         if !sst::is_table_full(&e) {
-                            self.o.fail("batch-over-limit-wrong-error", format!("an entry that overflows the batch was refused with {e:?} instead of table-full"));
-                            return false;
+                            self.notes.push("overfull-refused-with-another-error-than-table-full".into());
                         }
                         if wb.approximate_size() != sz {
                             self.o.fail("batch-over-limit-changed-batch", format!("a refused entry changed the batch's size from {sz} to {}", wb.approximate_size()));
@@ -560,15 +575,15 @@ pub fn build_with<W: sst::log::Write>(log: LogBuilder<W>, steps: &[Step], seed: 
 where
     LogBuilder<W>: MaybeFsync,
 {
-    let mut b = B { log, batches: vec![], seed, o, notes: vec![], rollover, relaxed_layout: false, refused: vec![] };
+    let mut b = B { log, batches: vec![], seed, o, notes: vec![], rollover, refused: vec![] };
     for s in steps {
         if !b.step(s) {
             return None;
         }
     }
-    let B { log, batches, o, notes, relaxed_layout, refused, .. } = b;
+    let B { log, batches, o, notes, refused, .. } = b;
     match log.seal() {
-        Ok((setsum, w)) => Some((Built { batches, setsum, notes, relaxed_layout, refused }, w)),
+        Ok((setsum, w)) => Some((Built { batches, setsum, notes, refused }, w)),
         Err(e) => {
             o.fail("seal-failed", format!("seal failed: {e:?}"));
             None
@@ -687,7 +702,10 @@ pub fn bucket(n: u64) -> &'static str {
 /// (Finding C12-C, repaired in /repo b0958d0: `LogBuilder::append` added the batch's setsum before
 /// `_append` could refuse the batch by the roll-over size; a refused append must leave the seal
 /// setsum alone.  regressions/C12/C12-C-*.json)
-pub fn check_whole(opts: &LogOptions, bytes: &[u8], built: &Built, o: &mut Outcome) -> Option<Vec<Group>> {
+/// Check the sealed image against the appended batches.  Returns the frame groups and, per batch,
+/// the file offset at which it is complete; `None` when an oracle failed or the layout could not be
+/// followed (see `o`).
+pub fn check_whole(opts: &LogOptions, bytes: &[u8], built: &Built, o: &mut Outcome) -> Option<(Vec<Group>, Vec<u64>)> {
     let total: usize = built.batches.iter().map(|b| b.entries.len()).sum();
     let mut exp = built.batches.iter().flat_map(|b| b.entries.iter());
     match read_compare_with(opts, bytes, &mut exp) {
@@ -732,42 +750,36 @@ pub fn check_whole(opts: &LogOptions, bytes: &[u8], built: &Built, o: &mut Outco
             return None;
         }
     }
-    if built.relaxed_layout {
-        // padding written by a refused append: frames must still parse (the file may end with padding)
-        let (frames, stop) = parse_frames_lenient(bytes);
-        if let Some((at, e)) = stop.filter(|(_, e)| e != "file ends with padding") {
-            o.fail("frame-layout", format!("the log reads back correctly but its frames do not parse at byte {at}: {e}"));
-            return None;
-        }
-        return match group_frames(&frames) {
-            Ok(g) => Some(g),
-            Err(e) => {
-                o.fail("frame-layout", format!("the log reads back correctly but {e}"));
-                None
-            }
-        };
-    }
-    let end = built.batches.last().map(|b| b.end).unwrap_or(0);
-    if end != bytes.len() as u64 {
-        o.fail("size-vs-file", format!("the builder reported {end} bytes written, the sealed log has {}", bytes.len()));
-        return None;
-    }
+    // From here on: how the batches lie in the file.  The frame FORMAT (what a reader can walk) is
+    // parsed independently; if the parser can not follow a log that reads back correctly, or the
+    // writer's placement decisions differ from today's, that is recorded, not judged.  What is
+    // judged is what a cut could show a reader: no frame may hold the end of one batch and part of
+    // another.
     let groups = match parse_frames(bytes).and_then(|f| group_frames(&f)) {
         Ok(g) => g,
         Err(e) => {
-            o.fail("frame-layout", format!("the log reads back correctly but is not laid out as whole / first+second frames with zero padding up to the block boundary: {e}"));
+            o.label("layout:independent-parser-can-not-follow-a-log-that-reads-back");
+            let _ = e;
             return None;
         }
     };
-    if let Err(e) = check_placement(&groups) {
-        o.fail("frame-layout", format!("the log reads back correctly but {e}"));
-        return None;
-    }
-    if groups.len() != built.batches.len() || groups.iter().zip(built.batches.iter()).any(|(g, b)| g.end != b.end) {
-        o.fail("frame-layout", format!("{} batches were appended, the file holds {} whole-or-split frames (or their end offsets differ from the builder's)", built.batches.len(), groups.len()));
-        return None;
-    }
-    Some(groups)
+    let payloads: Vec<u64> = built.batches.iter().map(|b| b.payload).collect();
+    let ends = match batch_ends(&groups, &payloads) {
+        Ok(e) => e,
+        Err(e) => {
+            o.fail("batch-straddles-frames", format!("the log reads back correctly but {e}: a cut behind that frame would show a partial batch"));
+            return None;
+        }
+    };
+    let builder_end = built.batches.last().map(|b| b.end).unwrap_or(0);
+    o.label(if builder_end == bytes.len() as u64 || built.batches.is_empty() { "layout:builder-offset=file-size" } else { "layout:builder-offset-differs-from-file-size" });
+    o.label(if check_placement(&groups).is_ok() { "layout:placement-as-documented" } else { "layout:placement-differs-from-the-documented-rule" });
+    o.label(if groups.len() == built.batches.len() && ends.iter().zip(built.batches.iter()).all(|(e, b)| *e == b.end) {
+        "layout:one-frame-group-per-batch,ends=builder-offsets"
+    } else {
+        "layout:frame-groups-or-their-ends-differ-from-the-builder's-account"
+    });
+    Some((groups, ends))
 }
 
 /// A roll-over size for a log of the given steps: mostly near a block boundary that the steps reach.
@@ -859,19 +871,26 @@ impl Property for RoundTrip {
                 for b in built.batches.iter() {
                     want += setsum_of(&b.entries);
                 }
-                match sst::log::log_to_setsum(opts.clone(), &path) {
-                    Ok(s) if s == want => {}
-                    Ok(s) => o.fail("log-to-setsum", format!("log_to_setsum gives {} for a log whose entries sum to {}", s.hexdigest(), want.hexdigest())),
-                    Err(e) => o.fail("log-to-setsum", format!("log_to_setsum fails on an intact log: {e:?}")),
-                }
+                // helper readers: recorded, not judged (outside the property's sentences)
+                o.label(match sst::log::log_to_setsum(opts.clone(), &path) {
+                    Ok(s) if s == want => "log_to_setsum:equals-sum-of-entries",
+                    Ok(_) => "log_to_setsum:DIFFERS-from-sum-of-entries",
+                    Err(_) => "log_to_setsum:fails-on-intact-log",
+                });
+                let last_end = groups.as_ref().and_then(|(g, _)| g.last().map(|g| g.end));
                 match sst::log::truncate_final_partial_frame(opts.clone(), &path) {
-                    Ok(None) => {}
-                    other => o.fail("tfpf-on-intact-log", format!("truncate_final_partial_frame on an intact log returned {other:?}")),
+                    Ok(None) => o.label("tfpf-on-intact-log:none"),
+                    Ok(Some(n)) => match last_end {
+                        // truncating an intact log there drops a complete batch
+                        Some(le) if n < le => o.fail("tfpf-loses-complete-batch", format!("truncate_final_partial_frame on an intact log of {} bytes names {n}, which cuts into the complete batch ending at {le}", bytes.len())),
+                        _ => o.label("tfpf-on-intact-log:names-an-offset-behind-the-last-batch"),
+                    },
+                    Err(_) => o.label("tfpf-on-intact-log:error"),
                 }
             }
             let _ = std::fs::remove_dir_all(dir);
         }
-        let Some(groups) = groups else { return o };
+        let Some((groups, _)) = groups else { return o };
         let splits = layout_labels(&groups, &mut o);
         o.label(format!("batches:{}", bucket(built.batches.len() as u64)));
         o.label(format!("blocks:{}", bytes.len() as u64 / BLOCK + 1));
@@ -926,6 +945,8 @@ fn cut_set(len: u64, frames: &[Frame], groups: &[Group], sampled: &[u16], budget
     for g in groups.iter().filter(|g| g.split.is_none() && g.pad_before > 0) {
         dense(g.start.saturating_sub(2), g.first_frame_start + 16, &mut must);
     }
+    // the end of every frame group (a batch laid out as several groups would show here)
+    must.extend(groups.iter().map(|g| g.end));
     // block boundaries
     let mut b = BLOCK;
     while b <= len + 3 {
@@ -976,7 +997,7 @@ impl Property for Truncation {
         let mut bytes: Vec<u8> = Vec::new();
         let log = LogBuilder::from_write(opts.clone(), &mut bytes).expect("from_write");
         let Some((built, _)) = build(log, &c.steps, c.seed as u64, &mut o) else { return o };
-        let Some(groups) = check_whole(&opts, &bytes, &built, &mut o) else { return o };
+        let Some((groups, ends)) = check_whole(&opts, &bytes, &built, &mut o) else { return o };
         let frames = parse_frames(&bytes).unwrap_or_default();
         let splits = layout_labels(&groups, &mut o);
         let len = bytes.len() as u64;
@@ -985,7 +1006,8 @@ impl Property for Truncation {
         if !complete {
             o.label("cut-set-thinned");
         }
-        let ends: Vec<u64> = built.batches.iter().map(|b| b.end).collect();
+        // (a batch is complete where the frame that holds its last byte ends; taken from the frames
+        // found in the file, not from the builder's offsets)
         let mut in_split = 0u64;
         let (mut clean, mut errs) = (0u64, 0u64);
         for &cut in cuts.iter() {
@@ -1062,21 +1084,36 @@ impl Property for Truncation {
                     break;
                 }
                 let want_off = if gi == 0 { 0 } else { groups[gi - 1].end };
+                let k = ends.partition_point(|e| *e <= want_off);
+                let want: usize = built.batches[..k].iter().map(|b| b.entries.len()).sum();
                 match vcore::guard(|| sst::log::truncate_final_partial_frame(opts.clone(), &path)) {
                     Err(fl) => {
                         o.fail(fl.signature, format!("truncate_final_partial_frame panics on a log that ends after the first half of a split frame (cut {cut}): {}", fl.message));
                     }
                     Ok(Ok(Some(off))) => {
-                        if off < want_off {
-                            o.fail("tfpf-loses-complete-batch", format!("log ends after the first half of split batch #{gi} (cut {cut}); truncate_final_partial_frame says {off}, which cuts into complete batch #{} ending at {want_off}", gi.saturating_sub(1)));
-                        } else if off != want_off {
-                            o.fail("tfpf-not-a-batch-boundary", format!("log ends after the first half of split batch #{gi} (cut {cut}); truncate_final_partial_frame says {off}, the last complete batch ends at {want_off}"));
-                        } else {
-                            let mut exp = built.batches.iter().flat_map(|b| b.entries.iter());
-                            let want: usize = built.batches[..gi].iter().map(|b| b.entries.len()).sum();
-                            match read_compare_with(&opts, &bytes[..off as usize], &mut exp) {
-                                Ok((n, End::Clean)) if n == want => o.label("tfpf:names-end-of-last-complete-batch"),
-                                other => o.fail("tfpf-truncated-log-unclean", format!("after truncating at {off} as told the log does not read cleanly: {:?}", other.map(|(n, _)| n))),
+                        // Judged by its consequence only: the log truncated where the function says
+                        // must hold every complete batch and nothing torn.
+                        let keep = off.min(cut) as usize;
+                        let mut exp = built.batches.iter().flat_map(|b| b.entries.iter());
+                        match read_compare_with(&opts, &bytes[..keep], &mut exp) {
+                            Ok((n, _)) if n < want => {
+                                o.fail("tfpf-loses-complete-batch", format!("log ends after the first half of split frame group #{gi} (cut {cut}); truncate_final_partial_frame says {off}; the log truncated there yields {n} of the {want} entries of the {k} complete batches (the last one ends at {want_off})"));
+                            }
+                            Ok((n, End::Clean)) if n == want => {
+                                o.label(if off == want_off { "tfpf:names-end-of-last-complete-batch" } else { "tfpf:names-another-offset-that-keeps-the-complete-batches-and-nothing-torn" });
+                            }
+                            other => {
+                                o.fail(
+                                    "tfpf-keeps-torn-batch",
+                                    format!(
+                                        "log ends after the first half of split frame group #{gi} (cut {cut}); truncate_final_partial_frame says {off}; the log truncated there still does not read as the {k} complete batches and a clean end: {}",
+                                        match other {
+                                            Ok((n, End::Clean)) => format!("{n} entries, {want} expected"),
+                                            Ok((n, End::Error(e))) => format!("{n} entries, then {e}"),
+                                            Err(m) => m,
+                                        }
+                                    ),
+                                );
                             }
                         }
                     }
